@@ -46,7 +46,7 @@ ASSUMPTIONS = [
 REQUIRED = ["roundtrips", "src_text", "src_bytes", "src_path", "offset_0", "offset_big",
             "rounding_tie_values", "comments_compared", "audit_file_opens", "rewrites_same_object",
             "trees_with_int64_ids", "same_path_rewritten_then_read",
-            "rejected_reads_before_roundtrip",
+            "rejected_reads_before_roundtrip", "loaded_trees_saved_again",
             "tap_to_swc", "tap_parse_swc", "tap_reset_index_"]
 FLOOR = {"quick": 500, "thorough": 40000}
 SHARDS = {"quick": 8, "thorough": 16}
@@ -223,6 +223,24 @@ def _exec(ctx, case, tmp):
                 return ctx.violation("comments-changed",
                                      f"{what}: {nm} comments {g[:6]!r} (n={len(g)}), expected "
                                      f"{e[:6]!r} (n={len(e)})", case)
+        if case.get("resave") and w_i == 0:
+            # the tree that was just read (it carries the first writer's header among its
+            # comments) is written again under another label and read once more: nothing is lost
+            text2 = t2.to_swc(source="resaved copy")
+            t3 = Tree.from_swc(io.StringIO(text2))
+            ctx.count("loaded_trees_saved_again")
+            g3 = [c.lstrip() for c in t3.comments]
+            e3 = ["source: resaved copy", ""] + [c.lstrip() for c in t2.comments]
+            if g3 != e3:
+                return ctx.violation("comments-changed",
+                                     f"{what}: saving the tree that was read back and reading it "
+                                     f"again gives comments {g3[:6]!r} (n={len(g3)}), expected "
+                                     f"{e3[:6]!r} (n={len(e3)})", case)
+            for k in ("pid", "type", "x", "y", "z", "r"):
+                if not np.array_equal(t3.ndata[k], t2.ndata[k]):
+                    return ctx.violation("second-roundtrip-changed",
+                                         f"{what}: column {k} changed when the tree read back was "
+                                         f"saved and read again", case)
         if kind == "path" and case.get("rewrite_same_path"):
             # another tree of the same text length goes to the *same* path right away (same
             # second, same size): the next read must return the new content
@@ -297,6 +315,7 @@ def run(ctx):
                     "wide_ids": bool(rng.random() < 0.35),
                     "rewrite_same_path": bool(rng.random() < 0.5),
                     "rejected_read_first": bool(rng.random() < 0.3),
+                    "resave": bool(rng.random() < 0.4),
                     "writes": writes}
             ctx.case(case, nontrivial=rc["n"] >= 2 and rc["shape"] != "single",
                      klass=f"{case['vclass']}/{rc['shape']}")
